@@ -266,6 +266,33 @@ def handle (op : String) (args : List String) : Option String := do
       pure (boolStr ((pts.zip outs).all fun (v, o) => match f v with
         | some w => allClose 1e-9 (v3To w) (v3To o)
         | none => false))
+  -- box HISTORY oracle: start box, #steps, then per step: kind(0 EncapsulatePoint p | 1 EncapsulateBounds centre extents | 2 Expand (amount,0,0) ≥ 0 |
+  -- 3 SetMinMax min max) p1 p2 and the IMPLEMENTATION's box after the step.  Folded: aabb_encapsulatePoint_contains/_mono,
+  -- aabb_encapsulateBounds_contains/_mono, aabb_expand_contains — after every step the box contains both corners of the box it started
+  -- as, every point and both corners of every box encapsulated so far (SetMinMax replaces the box: the contents start over)
+  | "c17.holds.aabb_history" => do
+      let start ← bbOf (fs.take 6)
+      let n := (fs.getD 6 0).toUInt64.toNat
+      let e : Float := 1e-9
+      let inBox := fun (b : geometry.AABB Float) (p : V3 Float) =>
+        let mn := b.Min; let mx := b.Max
+        let ok := fun (lo x hi : Float) => lo - e * (max 1.0 x.abs) ≤ x && x ≤ hi + e * (max 1.0 x.abs)
+        ok mn.x p.x mx.x && ok mn.y p.y mx.y && ok mn.z p.z mx.z
+      let rec go (k : Nat) (rest : List Float) (contents : List (V3 Float)) : Bool :=
+        match k with
+        | 0 => rest.isEmpty
+        | k + 1 =>
+          let kind := (rest.getD 0 9).toUInt64.toNat
+          match v3Of ((rest.drop 1).take 3), v3Of ((rest.drop 4).take 3), bbOf ((rest.drop 7).take 6) with
+          | some p1, some p2, some b =>
+            let contents := match kind with
+              | 0 => p1 :: contents
+              | 1 => p1.Sub p2 :: p1.Add p2 :: contents
+              | 2 => contents
+              | _ => [p1, p2]
+            contents.all (inBox b) && go k (rest.drop 13) contents
+          | _, _, _ => false
+      pure (boolStr (go n (fs.drop 7) [start.Min, start.Max]))
   -- oracles: the theorem statements of Props/C17 evaluated on the implementation's own output
   | "c17.holds.add_entrywise" => do   -- args: a b out
       let a ← mOf (fs.take 16); let b ← mOf ((fs.drop 16).take 16); let o ← mOf (fs.drop 32)
